@@ -20,7 +20,7 @@ MEM_GIB = 8.0
 TIERS = {
     # classes (None = all), instances per class
     "quick": {"classes": 260, "instances": 3},
-    "thorough": {"classes": None, "instances": 10},
+    "thorough": {"classes": None, "instances": 24},
 }
 
 
